@@ -379,6 +379,28 @@ def shared_profile_leg(run):
                          f'{dtype} / {nodata}' + ('' if prof == want else f'; the caller\'s dict now reads {prof}'),
                          signature=dict(kind='shared-profile'))
                 break
+    # a caller customises the profile it got from create_out_profile() in place (a lossy quick-look, say); a later run that asks for
+    # the defaults must still get the defaults
+    case = dict(i=5_100_005, op='default profile after a caller customised an earlier one')
+    try:
+        with warnings.catch_warnings():
+            warnings.simplefilter('ignore')
+            with RasterFuse(pair.src_path, pair.ref_path) as rf:
+                rf.process(tmp / 'c13sp_def0.tif', Model.gain, (3, 3), overwrite=True, block_config=dict(threads=1))
+                mine = RasterFuse.create_out_profile()
+                mine['creation_options'].update(compress='lzw', interleave='pixel', tiled=False)
+                mine['dtype'] = 'uint8'
+                rf.process(tmp / 'c13sp_def1.tif', Model.gain, (3, 3), overwrite=True, block_config=dict(threads=1))
+        run.evaluations += 2
+        with rio.open(tmp / 'c13sp_def0.tif') as d0, rio.open(tmp / 'c13sp_def1.tif') as d1:
+            p0 = {k_: d0.profile.get(k_) for k_ in ('dtype', 'nodata', 'compress', 'interleave', 'tiled', 'blockxsize', 'blockysize')}
+            p1 = {k_: d1.profile.get(k_) for k_ in p0}
+            same_px = fusion.bytes_equal(d0.read(), d1.read())
+        if repr(p0) != repr(p1) or not same_px:
+            run.fail(case, f'two runs with default options wrote different files: {p0} vs {p1} (pixels equal: {same_px}) - the second one after a '
+                     f'caller changed the creation options of a profile obtained from create_out_profile()', signature=dict(kind='shared-profile'))
+    except Exception as ex:
+        run.fail(case, f'raised {type(ex).__name__}: {ex}', signature=dict(kind='raises'))
     # the command line: one call, two sources, a parameter image and a non-default encoding
     d = tmp / 'c13sp_cli'
     d.mkdir()
